@@ -7,6 +7,7 @@ stream and the read chunking of the source.  Oracle: an independent reader (doc/
 independent memory model of the generated statements; metamorphic over the knobs (same program => same
 file); the golden corpus under the knobs (same records, p2bin rendering equals the trusted .ori).
 """
+import re
 from .. import codefile, corpus, oracle
 from ..driver import chash, ddmin
 from ..rng import Rng, mix
@@ -83,6 +84,30 @@ class Model:
 
     def reserve(self, units):
         self.pcs[self.seg] = self.pc() + units
+
+
+def intel_elems(arg):
+    """Elements of an Intel-style data argument list of the forms the generator writes: v | ? | n dup (v,..) | n dup (?)"""
+    out = []
+    for item in re.findall(r"\d+ dup \([^)]*\)|[^,\s]+", arg):
+        if " dup " in item:
+            cnt, _, rest = item.partition(" dup ")
+            out += intel_elems(rest.strip("()")) * int(cnt)
+        else:
+            out.append(None if item == "?" else int(item))
+    return out
+
+
+def apply_intel(m, op, arg):
+    """DN (two nibbles per byte, low nibble first, the last byte of a statement padded) and the reserving forms of DB/DW/DN"""
+    el = intel_elems(arg)
+    if all(e is None for e in el):
+        m.reserve({"db": len(el), "dw": 2 * len(el), "dn": (len(el) + 1) // 2}[op])
+        return
+    assert op == "dn" and None not in el
+    if len(el) & 1:
+        el = el + [0]
+    m.emit([el[i] | (el[i + 1] << 4) for i in range(0, len(el), 2)])
 
 
 def gen_program(rng, big=False):
@@ -289,6 +314,29 @@ def gen_program(rng, big=False):
                     L.append("\tbinclude \"blob.bin\"")
                 m.emit(list(BLOB[off:off + ln]))
                 total += ln
+        elif k == 12 and m.cpu in ("z80", "8051") and limit() - m.pc() > 40:
+            # Intel-style reservations written with ? and DUP, and nibble data: several elements share one target byte
+            op = rng.choice(["dn", "dn", "db", "dw"]) if m.cpu == "z80" else rng.choice(["db", "dw"])
+            if op == "dn" and rng.chance(0.5):
+                items = []
+                for _ in range(rng.randint(1, 4)):
+                    if rng.chance(0.3):
+                        items.append("%d dup (%s)" % (rng.randint(2, 5), ",".join(str(rng.below(16)) for _ in range(rng.randint(1, 3)))))
+                    else:
+                        items.append(str(rng.below(16)))
+            else:
+                items = ["?"] * rng.below(4)
+                for _ in range(rng.randint(0 if items else 1, 2)):
+                    items.append("%d dup (%s)" % (rng.randint(2, 6), ",".join(["?"] * rng.choice([1, 1, 2, 3]))))
+                    items += ["?"] * rng.below(3)
+            arg = ",".join(items)
+            L.append("\t%s %s" % (op, arg))
+            apply_intel(m, op, arg)
+            if rng.chance(0.7):
+                v = rng.below(256)
+                L.append("\tdb %d" % v)
+                m.emit([v])
+                total += 1
     if rng.chance(0.3):
         m.entry = rng.below(min(limit(), 60000) + 1)
         L.append("\tend %d" % m.entry)
@@ -571,6 +619,8 @@ def rebuild_model(lines):
             for v in arg.split(","):
                 bs += enc(int(v), t["unit"][1], t["unit"][2])
             m.emit(bs)
+        elif op == "dn" or (op in ("db", "dw") and "?" in arg):
+            apply_intel(m, op, arg)
         elif op == t.get("byte"):
             if " dup " in arg:
                 cnt, _, rest = arg.partition(" dup ")
